@@ -12,7 +12,7 @@ import (
 )
 
 func init() {
-	register("C04", c04NoBody, func(e *Env) { streamFraming(e, "C04.framing", "pkg/protocol/http1/resp") }, c04Writer, c04Excl, func(e *Env) { serveLoop(e, "C04") }, c04Fresh, c13Alias, c13WriterReset, c04Slots, c17Fill, c05Retain)
+	register("C04", c04NoBody, func(e *Env) { streamFraming(e, "C04.framing", "pkg/protocol/http1/resp") }, c04Writer, c04Excl, func(e *Env) { serveLoop(e, "C04") }, c04Fresh, c13Alias, c13WriterReset, c13CopyNode, c04Slots, c17Fill, c05Retain, c09Pools)
 }
 
 const pkgResp = Mod + "/pkg/protocol/http1/resp"
@@ -291,6 +291,12 @@ func streamFraming(e *Env, rule, rel string) {
 	lenVars[lenVar] = true
 	isLenVar := func(e ast.Expr) bool { v := usedVar(info, e); return v != nil && lenVars[v] }
 	counts := map[string]int{}
+	// a branch of the writer moved into a same-package helper is explored inline
+	isFramingEvent := func(f *types.Func) bool {
+		return f != nil && ((f.Name() == "WriteHeader" && f.Pkg() != nil && strings.HasPrefix(f.Pkg().Path(), pkgHTTP1)) ||
+			esp.Is(f, pkgExt, "", "WriteBodyFixedSize") || esp.Is(f, pkgExt, "", "WriteBodyChunked") || esp.Is(f, pkgExt, "", "WriteTrailer"))
+	}
+	framingInline := inlineWhen(info, isFramingEvent, nil)
 	rl := &esp.Rule{Name: rule, Init: str(st{hdr: "none", body: "none"}),
 		Track: func(k string) bool {
 			if k == "err == nil" {
@@ -303,7 +309,9 @@ func streamFraming(e *Env, rule, rel string) {
 			}
 			return false
 		},
-		Inline: func(f *types.Func, d *ast.FuncDecl) bool { return lenHelpers[f] },
+		Inline: func(f *types.Func, d *ast.FuncDecl) bool {
+			return lenHelpers[f] || (!isFramingEvent(f) && framingInline(f, d))
+		},
 		Node: func(c *esp.Ctx, n ast.Node) {
 			as, ok := n.(*ast.AssignStmt)
 			if !ok {
